@@ -117,6 +117,15 @@ def m_other(m, l, v):
 
 
 # ------------------------------------------------------------------------------- projection
+def other_fields(objs, skip):
+    """Everything else a named individual holds (universes, uid, user attributes ...), for the frame comparison."""
+    from rules.c13 import proj
+    out = {}
+    for n, o in objs.items():
+        out[n] = {k: proj(v) for k, v in sorted(o.fields.items()) if k not in skip}
+    return out
+
+
 def project(verts, links):
     """AE heap -> the same shape as the model heap."""
     d = {"vlinks": {}, "lverts": {}}
@@ -196,6 +205,9 @@ class Pre:
                 items.append(Seg(f"s2{r}"))
             V[r].fields["_links"] = Seq(items, "list")
         V["d"].fields["_links"] = Seq([Mk], "list")
+        for r in ("a", "b"):
+            V[r].fields["_universes"] = Seq([Seg(f"tau_{r}")], "list")      # prior universe memberships: untouched by link operations
+            V[r].fields["colour"] = Tok(50, "user-attribute")
         self.ghost = {}
         if memo == "warm":
             for r, v in V.items():
@@ -215,6 +227,8 @@ class Pre:
             self.model.lverts[n] = names(l.fields["_vertices"])
             self.model.lclass[n] = l.cls.name
         self.pre = copy.deepcopy(self.model.as_dict())
+        self.skip = {h.actual["links"], h.actual["ends"], h.actual["memo"]}
+        self.other_pre = other_fields({**self.V, **self.links}, self.skip)
 
     def arg(self, r):
         return self.V[r] if r else None
@@ -228,6 +242,11 @@ class Pre:
                 o.name = f"new{i}:{o.cls.name}"   # numbered among the links allocated by the call
                 links[o.name] = o
         return project(self.V, links), links
+
+    def frame_diff(self):
+        post = other_fields({**self.V, **self.links}, self.skip)
+        return [f"{n}.{k}: {self.other_pre[n].get(k, '<absent>')} -> {post[n].get(k, '<absent>')}" for n in post if n in self.other_pre
+                for k in sorted(set(post[n]) | set(self.other_pre[n])) if post[n].get(k, "<absent>") != self.other_pre[n].get(k, "<absent>")]
 
     def memo_entries(self, r):
         m = self.V[r].fields.get(MEMO)
